@@ -25,6 +25,9 @@ import (
 type coreCase struct {
 	Req  evmReq `json:"req"`
 	Note string `json:"note,omitempty"`
+	// a call passes an arbitrary gas argument: in-tree ignores it (fixed budget), the reference
+	// would starve the callee - such cases are compared with the model only
+	SmallGas bool `json:"small_gas,omitempty"`
 }
 
 // sstoreTracer remembers every storage key an SSTORE addressed
@@ -173,6 +176,11 @@ var corePure = []struct {
 
 var coreClean bool // the program being generated avoids deliberate faults
 
+// engine "evmworld": the addresses the program being generated may call or ask about (none: no such gadgets)
+var coreCallTargets []string
+var coreAskTargets []string
+var coreSmallGas bool // a call with an arbitrary gas argument was generated: the reference would starve the callee
+
 func coreOffset(r *Rng) *big.Int {
 	k := r.Intn(12)
 	if coreClean && k < 2 {
@@ -197,6 +205,19 @@ func genCoreProgram(r *Rng) []byte {
 	depth := 0 // a lower bound of what is on the stack
 	push := func(w *big.Int) { a.push(w); depth++ }
 	small := func(n int) *big.Int { return big.NewInt(int64(r.Intn(n))) }
+	// make the word on top of the stack visible afterwards: in storage or in (returnable) memory
+	visible := func() {
+		switch r.Intn(3) {
+		case 0:
+			push(big.NewInt(int64(30 + r.Intn(6))))
+			a.op(0x55)
+			depth -= 2
+		case 1:
+			push(big.NewInt(int64(r.Intn(3)) * 32))
+			a.op(0x52)
+			depth -= 2
+		}
+	}
 	switch r.Intn(30) {
 	case 0:
 		// the stack filled to one below, exactly at, or one above its limit: a counted loop that
@@ -226,8 +247,107 @@ func genCoreProgram(r *Rng) []byte {
 		return a.finish()
 	}
 	n := 4 + r.Intn(22)
+	kmax := 40
+	if len(coreAskTargets) > 0 {
+		kmax = 52
+	}
+	addrWord := func(list []string) *big.Int {
+		w := common.HexToAddress(list[r.Intn(len(list))]).Big()
+		if r.Chance(1, 6) {
+			// dirt above the low 160 bits is ignored
+			w = new(big.Int).Add(w, new(big.Int).Lsh(big.NewInt(int64(1+r.Intn(200))), 160))
+		}
+		return w
+	}
 	for i := 0; i < n; i++ {
-		switch k := r.Intn(40); {
+		switch k := r.Intn(kmax); {
+		case k >= 46: // BALANCE / EXTCODESIZE / EXTCODECOPY of some account
+			switch r.Intn(3) {
+			case 0:
+				push(addrWord(coreAskTargets))
+				a.op(0x31)
+				visible()
+			case 1:
+				push(addrWord(coreAskTargets))
+				a.op(0x3b)
+				visible()
+			default:
+				ln := small(60)
+				if r.Chance(1, 5) {
+					ln = big.NewInt(0)
+				}
+				push(ln)
+				push(small(40))
+				push(coreOffset(r))
+				push(addrWord(coreAskTargets))
+				a.op(0x3c)
+				depth -= 4
+			}
+		case k >= 40: // a call of one of the four kinds, its flag stored, its return data looked at
+			targets := coreCallTargets
+			if len(targets) == 0 || r.Chance(1, 4) {
+				targets = []string{"0x00000000000000000000000000000000000000bb", "0x000000000000000000000000000000000000dead", "0x00000000000000000000000000000000000000aa"}
+			}
+			kind := []byte{0xf1, 0xf1, 0xf2, 0xf4, 0xfa}[r.Intn(5)]
+			push(small(70))      // retSize
+			push(big.NewInt(int64(r.Intn(5)) * 32)) // retOffset
+			push(small(40))      // inSize
+			push(small(100))     // inOffset
+			if kind == 0xf1 || kind == 0xf2 {
+				v := small(3)
+				if r.Chance(1, 10) {
+					v = big.NewInt(2000000) // more than anybody has
+				}
+				push(v)
+			}
+			push(addrWord(targets))
+			if r.Chance(1, 18) {
+				push(interestingWord(r)) // the gas argument is not what meters the callee (deliberate deviation)
+				coreSmallGas = true
+			} else {
+				push(new(big.Int).Lsh(big.NewInt(1), 62))
+			}
+			a.op(kind)
+			if kind == 0xf1 || kind == 0xf2 {
+				depth -= 6
+			} else {
+				depth -= 5
+			}
+			push(big.NewInt(int64(20 + r.Intn(4))))
+			a.op(0x55) // the flag becomes visible
+			depth -= 2
+			switch r.Intn(4) {
+			case 0:
+				a.op(0x3d) // RETURNDATASIZE
+				depth++
+			case 1: // copy all of it
+				a.op(0x3d)
+				a.pushN(0)
+				push(big.NewInt(int64(r.Intn(4)) * 32))
+				depth++
+				a.op(0x3e)
+				depth -= 2
+			case 2: // copy beyond it: fails unless there is that much
+				if !clean {
+					if r.Bool() {
+						push(small(40))
+						push(small(40))
+						push(small(64))
+						a.op(0x3e)
+						depth -= 3
+					} else {
+						// exactly one byte more than there is
+						a.op(0x3d)
+						a.pushN(1)
+						a.op(0x01)
+						a.pushN(0)
+						push(small(64))
+						depth++
+						a.op(0x3e)
+						depth -= 3
+					}
+				}
+			}
 		case k < 8: // pure instruction on fresh or stacked operands
 			o := corePure[r.Intn(len(corePure))]
 			for j := 0; j < o.arity; j++ {
@@ -272,8 +392,9 @@ func genCoreProgram(r *Rng) []byte {
 			}
 			a.op(0x54)
 		case k < 20: // environment and block
-			a.op([]byte{0x30, 0x32, 0x33, 0x34, 0x36, 0x38, 0x3a, 0x3d, 0x41, 0x42, 0x43, 0x44, 0x45, 0x58}[r.Intn(14)])
+			a.op([]byte{0x30, 0x32, 0x33, 0x34, 0x36, 0x38, 0x3a, 0x3d, 0x41, 0x42, 0x43, 0x44, 0x45, 0x58, 0x33, 0x34, 0x30}[r.Intn(17)])
 			depth++
+			visible()
 		case k < 22: // CALLDATALOAD
 			if r.Chance(1, 3) {
 				push(interestingWord(r))
